@@ -272,4 +272,247 @@ theorem ex_sq_tag : tagBootstrap exDev 0 = .ok (exDev.map (tagCell 0)) := by
 theorem ex_sq_rep : replicateD exSquare ["paid_loss"] (exDraws 0 0) 0 = .ok (exDev.map (tagCell 0)) := by
   simp only [replicateD, ex_sq_use, if_true, ex_sq_res, replicate, ex_sq_dev, ex_sq_tag]
 
+/-! ### a closed TWO-slice instance: `exSquare` (default metadata) and the same square under `country = "US"`;
+slice 0 swaps its factors (draws `[1, 0]`), slice 1 keeps them (`[0, 1]`) -/
+
+def exMd2 : Metadata := { (default : Metadata) with country := some "US" }
+def exSquareB : List Cell := exSquare.map fun c => { c with md := exMd2 }
+def exDevB : List Cell := exSquareB
+def exTwo : List Cell := exSquare ++ exSquareB
+/-- slice 0 swaps the factors, slice 1 keeps them (identity draws) -/
+def exDraws2 : Nat → Nat → Draws := fun k _ =>
+  if k = 0 then { I := [(12, [("paid_loss", [1, 0])])] } else { I := [(12, [("paid_loss", [0, 1])])] }
+def exFB : Factors := [(12, [("paid_loss", [3 / 2, 2])])]
+
+theorem ex_sqB_sorted : exSquareB.Pairwise (fun a b => Cell.le a b) := by decide +kernel
+theorem ex_sqB_kinds : kindsConsistent exSquareB = true := by decide +kernel
+theorem ex_two_kinds : kindsConsistent exTwo = true := by decide +kernel
+theorem ex_two_slices : (Triangle.slices exTwo).map (·.2) = [exSquare, exSquareB] := by
+  have hm : metasOf exTwo = [default, exMd2] := by decide +kernel
+  have h1 : exTwo.filter (·.md == (default : Metadata)) = exSquare := by decide +kernel
+  have h2 : exTwo.filter (·.md == exMd2) = exSquareB := by decide +kernel
+  simp only [Triangle.slices, hm, List.map_cons, List.map_nil, h1, h2,
+    List.mergeSort_of_pairwise ex_sq_sorted, List.mergeSort_of_pairwise ex_sqB_sorted]
+theorem ex_sqB_fields : fieldsOf exSquareB = ["paid_loss"] := by
+  have : dedup (exSquareB.flatMap (·.values.keys)) = ["paid_loss"] := by decide +kernel
+  rw [fieldsOf, this, sortStrings]
+  exact List.mergeSort_of_pairwise (by decide +kernel)
+theorem ex_sqB_periods : periodsOf exSquareB = [(⟨2020, 1, 1⟩, ⟨2020, 12, 31⟩), (⟨2021, 1, 1⟩, ⟨2021, 12, 31⟩)] := by
+  have : dedup (exSquareB.map fun c => (c.ps, c.pe)) =
+      [(⟨2020, 1, 1⟩, ⟨2020, 12, 31⟩), (⟨2021, 1, 1⟩, ⟨2021, 12, 31⟩)] := by decide +kernel
+  rw [periodsOf, this]
+  exact List.mergeSort_of_pairwise (by decide +kernel)
+theorem ex_sqB_use : useAtas exSquareB = true := by
+  rw [useAtas, ex_sqB_periods]; decide +kernel
+theorem ex_sqB_lags : sortedLags exSquareB = [0, 12] := by
+  have : lagsOf exSquareB = [0, 12] := by decide +kernel
+  rw [sortedLags, this, sortQ]
+  exact List.mergeSort_of_pairwise (by decide +kernel)
+theorem ex_sqB_clip : clipLags exSquareB 0 12 = .ok exSquareB := by
+  have : (exSquareB.filter fun c => decide ((0:Rat) ≤ c.devLag) && decide (c.devLag ≤ 12)) = exSquareB := by decide +kernel
+  rw [clipLags, this]
+  exact ofCells_of_sorted ex_sqB_kinds ex_sqB_sorted
+theorem ex_sqB_table : ataTable exSquareB ["paid_loss"] = .ok [(12, [("paid_loss", [3 / 2, 2])])] := by
+  simp only [ataTable, ex_sqB_lags, List.tail_cons, List.zip_cons_cons, List.zip_nil_left, mapMExcept, ex_sqB_clip]
+  decide +kernel
+theorem ex_sqB_res : resampledAtas exSquareB ["paid_loss"] (exDraws2 1 0).I = .ok exFB := by
+  simp only [resampledAtas, ex_sqB_table]
+  decide +kernel
+theorem ex_sqB_loop : developLoop exSquareB exFB [] exSquareB = .ok exDevB := by
+  rw [show developLoop exSquareB exFB [] exSquareB = developLoop exSquareB exFB []
+    [{ mkSq 2020 ⟨2020, 12, 31⟩ 100 with md := exMd2 }, { mkSq 2020 ⟨2021, 12, 31⟩ 150 with md := exMd2 },
+     { mkSq 2021 ⟨2021, 12, 31⟩ 80 with md := exMd2 }, { mkSq 2021 ⟨2022, 12, 31⟩ 160 with md := exMd2 }] from rfl]
+  simp only [developLoop, ex_sqB_periods]
+  decide +kernel
+theorem ex_sqB_dev : developByAtas exSquareB exFB = .ok exDevB := by
+  rw [developByAtas, ex_sqB_loop]
+  exact ofCells_of_sorted ex_sqB_kinds ex_sqB_sorted
+theorem ex_sqB_tag : tagBootstrap exDevB 0 = .ok (exDevB.map (tagCell 0)) := by
+  have hk : kindsConsistent (exDevB.map (tagCell 0)) = true := by decide +kernel
+  have hs : (exDevB.map (tagCell 0)).Pairwise (fun a b => Cell.le a b) := by decide +kernel
+  have hm : exDevB.mapM (fun c => ({ c with md := c.md.edit (.detail "bootstrap" (.num ((0 : Nat) : Rat))) }).mk?) =
+      .ok (exDevB.map (tagCell 0)) := by decide +kernel
+  simp only [tagBootstrap, Triangle.deriveMetadata, hm, bind, Except.bind]
+  exact ofCells_of_sorted hk hs
+theorem ex_sqB_rep : replicateD exSquareB ["paid_loss"] (exDraws2 1 0) 0 = .ok (exDevB.map (tagCell 0)) := by
+  simp only [replicateD, ex_sqB_use, if_true, ex_sqB_res, replicate, ex_sqB_dev, ex_sqB_tag]
+theorem ex_sqA_rep2 : replicateD exSquare ["paid_loss"] (exDraws2 0 0) 0 = .ok (exDev.map (tagCell 0)) := ex_sq_rep
+theorem ex_two_sum : Triangle.ofCells (exDev.map (tagCell 0) ++ exDevB.map (tagCell 0)) =
+    .ok (exDev.map (tagCell 0) ++ exDevB.map (tagCell 0)) :=
+  ofCells_of_sorted (by decide +kernel) (by decide +kernel)
+
+theorem ex_two_tagInj : ∀ i, TagInjective exTwo i := by
+  intro i c1 h1 c2 h2 h
+  have hmd : ∀ c ∈ exTwo, c.md = default ∨ c.md = exMd2 := by decide +kernel
+  have hc : ∀ m : Metadata, (Spec.C17.tagMd m i).country = m.country := fun _ => rfl
+  have hne : (default : Metadata).country ≠ exMd2.country := by decide +kernel
+  have hcc : c1.md.country = c2.md.country := (hc c1.md).symm.trans ((congrArg (·.country) h).trans (hc c2.md))
+  rcases hmd c1 h1 with e1 | e1 <;> rcases hmd c2 h2 with e2 | e2 <;> rw [e1, e2] at hcc ⊢
+  · exact absurd hcc hne
+  · exact absurd hcc.symm hne
+
+theorem ex_sq_layout : SliceLayout exSquare :=
+  ⟨ex_sq_sorted, by decide +kernel, by decide +kernel, by decide +kernel⟩
+theorem ex_sqB_layout : SliceLayout exSquareB :=
+  ⟨ex_sqB_sorted, by decide +kernel, by decide +kernel, by decide +kernel⟩
+/-! ### from the chain clause to the clause of `Spec.C17.ataMembershipOk` -/
+
+/-- the chain clause of one cell implies the membership clause of `ataMembershipOk` for that cell, given that the
+factors of the table at that lag are among `R f` -/
+theorem chainCellOk_membership {F : Factors} {fields : List String} {pidx : Nat} {c o : Cell} {pvals : Dict Val}
+    {R : String → List Rat} (hR : ∀ f r, factorAt F c.devLag f pidx = some r → r ∈ R f)
+    (h : chainCellOk F fields pidx c pvals o = true) :
+    (c.values.all fun (f, v) =>
+      if fields.contains f && pvals.contains f then
+        if isFalsy (some v) then o.values.get? f == some .none
+        else
+          match num? (o.values.get? f), num? (pvals.get? f) with
+          | some x, some y => (R f).any fun r => x == y * r
+          | _, _ => false
+      else o.values.get? f == some v) = true := by
+  unfold chainCellOk at h
+  rw [List.all_eq_true] at h ⊢
+  rintro ⟨f, v⟩ hfv
+  have := h (f, v) hfv
+  dsimp only at this ⊢
+  split
+  · rename_i hc
+    rw [if_pos hc] at this
+    split
+    · rename_i hfal
+      rw [if_pos hfal] at this; exact this
+    · rename_i hfal
+      rw [if_neg hfal] at this
+      split at this
+      · rename_i x y r hx hy hr
+        rw [hx, hy]
+        simp only [List.any_eq_true]
+        exact ⟨r, hR f r hr, this⟩
+      · cases this
+  · rename_i hc
+    rw [if_neg hc] at this; exact this
+
+/-- the clause of `Spec.C17.ataMembershipOk` for one cell `c` of an age-to-age slice `s` -/
+def ataMembershipCell (s rep : List Cell) (i : Nat) (sel : List String) (c : Cell) : Bool :=
+  let row := s.filter fun d => (d.ps, d.pe) == (c.ps, c.pe) && d.devLag < c.devLag
+  match row.getLast?, repCell rep c i with
+  | none, _ => true
+  | _, none => false
+  | some prev, some o =>
+    match repCell rep prev i with
+    | none => false
+    | some po =>
+      c.values.all fun (f, v) =>
+        if sel.contains f && po.values.contains f then
+          if isFalsy (some v) then o.values.get? f == some .none
+          else
+            match num? (o.values.get? f), num? (po.values.get? f) with
+            | some x, some y => (ratios s prev.devLag c.devLag f).any fun r => x == y * r
+            | _, _ => false
+        else o.values.get? f == some v
+
+theorem ataMembershipOk_eq (t rep : List Cell) (i : Nat) (field : Option (List String)) :
+    ataMembershipOk t rep i field = t.all fun c =>
+      if !useAtas (sliceOf t c) then true
+      else ataMembershipCell (sliceOf t c) rep i (field.getD (fieldsOf (sliceOf t c))) c := rfl
+
+/-- the model's empirical column into a lag is contained in the Spec's independent `ratios` from the row
+predecessor's lag -/
+def ColumnsInRatios (s : List Cell) (fields : List String) (I : IdxTable) : Prop :=
+  ∀ F, resampledAtas s fields I = .ok F → ∀ c ∈ s, ∀ prev,
+    (s.filter fun d => (d.ps, d.pe) == (c.ps, c.pe) && d.devLag < c.devLag).getLast? = some prev →
+    ∀ f r, factorAt F c.devLag f ((periodsOf s).idxOf (c.ps, c.pe)) = some r → r ∈ ratios s prev.devLag c.devLag f
+
+theorem ataMembershipCell_of_chain {s rep : List Cell} {i : Nat} {fields : List String} {I : IdxTable} {F : Factors}
+    (hF : resampledAtas s fields I = .ok F) (hchain : chainOkSlice s rep i fields I = true)
+    (hcol : ColumnsInRatios s fields I) : ∀ c ∈ s, ataMembershipCell s rep i fields c = true := by
+  intro c hc
+  simp only [chainOkSlice, hF, List.all_eq_true] at hchain
+  have h := hchain c hc
+  unfold ataMembershipCell
+  dsimp only at h ⊢
+  split
+  · rfl
+  · rename_i hnone hne
+    rw [hnone] at h
+    cases hl : (s.filter fun d => (d.ps, d.pe) == (c.ps, c.pe) && d.devLag < c.devLag).getLast? with
+    | none => exact absurd hl hne
+    | some p => rw [hl] at h; exact h
+  · rename_i prev o hp ho
+    rw [hp, ho] at h
+    dsimp only at h
+    split
+    · rename_i hpo; rw [hpo] at h; exact h
+    · rename_i po hpo
+      rw [hpo] at h
+      exact chainCellOk_membership (fun f r hr => hcol F hF c hc prev hp f r hr) h
+
+theorem replicateD_resampled {s rep : List Cell} {fields : List String} {d : Draws} {i : Nat}
+    (h : replicateD s fields d i = .ok rep) (hu : useAtas s = true) : ∃ F, resampledAtas s fields d.I = .ok F := by
+  simp only [replicateD, hu, if_true] at h
+  split at h
+  · cases h
+  · rename_i F hF; exact ⟨F, hF⟩
+
+theorem ataMembershipOk_bootstrapD {t : List Cell} {n : Int} {field : Option (List String)}
+    {D : Nat → Nat → Draws} {reps : List (List Cell)} (h : bootstrapD t n field D = .ok reps)
+    (hk : kindsConsistent t = true) (hs : t.Pairwise (fun a b => Cell.le a b)) (hinj : ∀ i, TagInjective t i)
+    (hlay : ∀ s ∈ (Triangle.slices t).map (·.2), useAtas s = true →
+      SliceLayout s ∧ ∀ c ∈ s, c.values.keys.Nodup)
+    (hcol : ∀ k (hks : k < ((Triangle.slices t).map (·.2)).length) i,
+      ColumnsInRatios ((Triangle.slices t).map (·.2))[k]
+        (field.getD (fieldsOf ((Triangle.slices t).map (·.2))[k])) (D k i).I) :
+    ∀ i (hi : i < reps.length), ataMembershipOk t reps[i] i field = true := by
+  intro i hi
+  rw [ataMembershipOk_eq, List.all_eq_true]
+  intro c hc
+  obtain ⟨s, hsS, hcs⟩ := List.mem_flatten.mp ((slices_flatten_perm t).mem_iff.mpr hc)
+  obtain ⟨k, hks, rfl⟩ := List.getElem_of_mem hsS
+  rw [slice_is_sliceOf hs _ hsS c hcs]
+  by_cases hu : useAtas ((Triangle.slices t).map (·.2))[k] = true
+  · simp only [hu, Bool.not_true, Bool.false_eq_true, if_false]
+    obtain ⟨H, hwf⟩ := hlay _ hsS hu
+    obtain ⟨rep, hrep, hcell⟩ := bootstrapD_slice_repCell h hk hinj k hks i hi
+    obtain ⟨F, hF⟩ := replicateD_resampled hrep hu
+    have hchain : chainOkSlice ((Triangle.slices t).map (·.2))[k] reps[i] i
+        (field.getD (fieldsOf ((Triangle.slices t).map (·.2))[k])) (D k i).I = true := by
+      rw [chainOkSlice_congr hcell]
+      exact spec_chain_replicate' hrep hu (slice_props hk _ hsS).1 H.sorted (coords_nodup_of_layout H) H.oneMd hwf
+        (rowsByLag_of_layout H)
+    exact ataMembershipCell_of_chain hF hchain (hcol k hks i) c hcs
+  · rw [Bool.not_eq_true] at hu
+    rw [hu]; rfl
+/-! `ColumnsInRatios` is satisfiable: it holds on the closed instance -/
+
+theorem ex_sq_ratios : ratios exSquare 0 12 "paid_loss" = [3 / 2, 2] := by
+  simp only [ratios, ex_sq_periods]
+  decide +kernel
+theorem ex_sq_columns : ColumnsInRatios exSquare ["paid_loss"] (exDraws 0 0).I := by
+  intro F hF c hc prev hp f r hr
+  rw [ex_sq_res] at hF
+  cases hF
+  have hmem : ∀ lag f pidx r, factorAt exF lag f pidx = some r → lag = 12 ∧ f = "paid_loss" ∧ (r = 2 ∨ r = 3 / 2) := by
+    intro lag f pidx r h
+    unfold factorAt at h
+    split at h
+    · cases h
+    · rename_i tbl ht
+      have h1 := assoc?_mem ht
+      simp only [exF, List.mem_cons, Prod.mk.injEq, List.not_mem_nil, or_false] at h1
+      obtain ⟨rfl, rfl⟩ := h1
+      split at h
+      · cases h
+      · rename_i arr ha
+        have h2 := assoc?_mem ha
+        simp only [List.mem_cons, Prod.mk.injEq, List.not_mem_nil, or_false] at h2
+        obtain ⟨rfl, rfl⟩ := h2
+        have := List.mem_of_getElem? h
+        simp only [List.mem_cons, List.not_mem_nil, or_false] at this
+        exact ⟨rfl, rfl, this⟩
+  obtain ⟨hlag, rfl, hr2⟩ := hmem _ _ _ _ hr
+  have hprev : ∀ c ∈ exSquare, c.devLag = 12 → ∀ prev,
+      (exSquare.filter fun d => (d.ps, d.pe) == (c.ps, c.pe) && d.devLag < c.devLag).getLast? = some prev →
+      prev.devLag = 0 := by decide +kernel
+  rw [hprev c hc hlag prev hp, hlag, ex_sq_ratios]
+  rcases hr2 with rfl | rfl <;> simp
 end Bermuda.Resample
